@@ -52,7 +52,8 @@ def strategy(tier: str) -> Any:
     attempt = st.fixed_dictionaries({
         'kind': st.sampled_from(['login', 'login', 'plain', 'plain', 'plain',
                                  'sasl-login', 'bogus-mech', 'starttls',
-                                 'unauth', 'capability']),
+                                 'unauth', 'unauth', 'capability']),
+        'reuse': st.sampled_from([False, False, True]),
         'cid': st.sampled_from(NAMES[:4] + NAMES[:3] + NAMES),
         'pw': st.sampled_from(PWS[:3] + PWS),
         'right_pw': st.booleans(),
@@ -62,12 +63,25 @@ def strategy(tier: str) -> Any:
                                    'nonul', 'extranul', 'trunc', 'huge']),
         'spell': st.integers(0, 3),
     })
+    # warm prefix: a login that succeeds, then UNAUTHENTICATE (ManageSieve)
+    # - what follows starts from a connection that *had* been authenticated
+    good = st.fixed_dictionaries({
+        'kind': st.sampled_from(['plain', 'login']),
+        'cid': st.sampled_from(NAMES[:3]), 'pw': st.just(''),
+        'right_pw': st.just(True), 'zid': st.just(''), 'mangle': st.just(''),
+        'spell': st.integers(0, 3), 'reuse': st.just(False)})
+    unauth = good.map(lambda a: dict(a, kind='unauth'))
+    attempts = st.one_of(
+        st.lists(attempt, min_size=1, max_size=8),
+        st.tuples(good, unauth, st.lists(attempt, min_size=1,
+                                         max_size=6)).map(
+            lambda t: [t[0], t[1]] + t[2]))
     return st.fixed_dictionaries({
         'service': st.sampled_from(['imap', 'imap', 'imap', 'sieve']),
         'backend': st.sampled_from(['dict', 'dict', 'maildir']),
         'tls': st.booleans(),
         'local': st.sampled_from([False, False, True]),
-        'attempts': st.lists(attempt, min_size=1, max_size=8),
+        'attempts': attempts,
     })
 
 
@@ -183,8 +197,12 @@ def run_case(case: dict[str, Any]) -> CaseOut:
     return out
 
 
-def _creds(a: dict[str, Any]) -> tuple[str, str, str]:
+def _creds(a: dict[str, Any], last_ok: str | None = None
+           ) -> tuple[str, str, str]:
     cid = a['cid']
+    if a.get('reuse') and last_ok is not None:
+        cid = last_ok      # the identity that succeeded earlier on this
+        #                    connection, now with whatever password is drawn
     pw = USERS[cid][0] if a['right_pw'] and cid in USERS else a['pw']
     zid = cid if a['zid'] == 'same' else a['zid']
     return cid, pw, zid
@@ -307,13 +325,14 @@ def _imap(case: dict[str, Any], conn: Any, greeting: bytes, out: CaseOut,
 def _sieve(case: dict[str, Any], conn: Any, greeting: bytes,
            out: CaseOut) -> None:
     authed_as: str | None = None
+    last_ok: str | None = None
     prev_failed = False
     n = 0
     for a in case['attempts']:
         if conn.done:
             break
         n += 1
-        cid, pw, zid = _creds(a)
+        cid, pw, zid = _creds(a, last_ok)
         kind = a['kind']
         if kind == 'capability':
             conn.cmd(b'CAPABILITY\r\n')
@@ -324,6 +343,8 @@ def _sieve(case: dict[str, Any], conn: Any, greeting: bytes,
         if kind == 'unauth':
             r = conn.cmd(b'UNAUTHENTICATE\r\n')
             if r.startswith(b'OK'):
+                if authed_as is not None:
+                    out.label('unauthenticate-after-success')
                 authed_as = None
                 lst = conn.cmd(b'LISTSCRIPTS\r\n')
                 if lst.startswith(b'OK') or b'script-' in lst:
@@ -372,6 +393,7 @@ def _sieve(case: dict[str, Any], conn: Any, greeting: bytes,
                          f'{desc}: allowed {allowed!r}, scripts of {who}')
                 return
             authed_as = allowed
+            last_ok = cid
             prev_failed = False
         else:
             if ok:
